@@ -2,6 +2,7 @@ package main
 
 import (
 	"bytes"
+	"crypto/sha256"
 	"errors"
 	"fmt"
 	"math"
@@ -173,8 +174,18 @@ type Stream struct {
 }
 
 type storedBatch struct {
-	bar  *colarspb.BatchArrowRecords
-	want []string
+	bar     *colarspb.BatchArrowRecords
+	want    []string
+	digests []string // of each payload at emission
+}
+
+func payloadDigests(bar *colarspb.BatchArrowRecords) []string {
+	var out []string
+	for _, p := range bar.ArrowPayloads {
+		h := sha256.Sum256(p.Record)
+		out = append(out, string(h[:8]))
+	}
+	return out
 }
 
 func NewStream(o Options, mon Monitors) *Stream {
@@ -270,6 +281,18 @@ func (st *Stream) Step(l Letter) (viol []Violation) {
 		st.cursor++
 		if sb == nil {
 			return nil
+		}
+		if st.mon.Framing || st.mon.DictSize {
+			for i, d := range payloadDigests(sb.bar) {
+				if i < len(sb.digests) && d != sb.digests[i] {
+					add("C12", "payload %d (%s) of batch %d: its bytes changed after the batch was emitted (a BatchArrowRecords must stay valid while later batches are produced)", i, sb.bar.ArrowPayloads[i].Type, sb.bar.BatchId)
+				}
+			}
+			st.wire(l, sb.bar, add)
+			st.okCalls++
+			if !st.mon.Roundtrip {
+				return viol
+			}
 		}
 		st.decodeAndCompare(l, sb.bar, sb.want, add, " (decoded after all later batches had been produced)")
 		return viol
@@ -370,15 +393,15 @@ func (st *Stream) Step(l Letter) (viol []Violation) {
 		}
 		return viol
 	}
+	if st.pipelined {
+		st.stored[len(st.stored)-1] = &storedBatch{bar: bar, want: want, digests: payloadDigests(bar)}
+		return viol
+	}
 	if st.mon.Framing || st.mon.DictSize {
 		st.wire(l, bar, add)
 	}
 	st.okCalls++
 	if !st.mon.Roundtrip {
-		return viol
-	}
-	if st.pipelined {
-		st.stored[len(st.stored)-1] = &storedBatch{bar: bar, want: want}
 		return viol
 	}
 	st.decodeAndCompare(l, bar, want, add, "")
@@ -600,7 +623,12 @@ func walkDicts(a arrow.Array, path string, f func(path string, d *array.Dictiona
 }
 
 // scanMessages checks the IPC message sequence of one payload.
-func scanMessages(b []byte, first bool) string {
+func scanMessages(b []byte, first bool) (verdict string) {
+	defer func() {
+		if r := recover(); r != nil {
+			verdict = fmt.Sprintf("the payload bytes are not a sequence of Arrow IPC messages (message reader panicked: %v)", r)
+		}
+	}()
 	mr := ipc.NewMessageReader(bytes.NewReader(b))
 	defer mr.Release()
 	var kinds []string
